@@ -10,13 +10,13 @@ mod dispatch;
 pub enum Arg {
     Int(i128),
     Bytes(Vec<u8>),
-    Ints(Vec<i64>),
+    Ints(Vec<i128>),
 }
 
 pub enum Out {
     Int(i128),
     Bytes(Vec<u8>),
-    Ints(Vec<i64>),
+    Ints(Vec<i128>),
 }
 
 fn parse_arg(s: &str) -> Arg {
@@ -33,7 +33,7 @@ fn parse_arg(s: &str) -> Arg {
         if l.is_empty() {
             Arg::Ints(vec![])
         } else {
-            Arg::Ints(l.split(',').map(|t| t.parse::<i64>().unwrap()).collect())
+            Arg::Ints(l.split(',').map(|t| t.parse::<i128>().unwrap()).collect())
         }
     } else {
         Arg::Int(s.parse::<i128>().unwrap())
